@@ -82,7 +82,9 @@ pub const ZONES: [&str; 52] = [
     "US/Pacific",
     "Asia/Calcutta",
 ];
-const BAD_ZONES: [&str; 6] = ["Mars/Olympus_Mons", "No/Such_Zone", "America/New_york", "Europe/Londonx", "America", "Asia/Tokyo_"];
+/// names that make a call fail: unknown, mis-cased, truncated, a directory - and files that exist in the zoneinfo
+/// directory but are not time-zone data (the read succeeds, the parse fails)
+const BAD_ZONES: [&str; 10] = ["Mars/Olympus_Mons", "No/Such_Zone", "America/New_york", "Europe/Londonx", "America", "Asia/Tokyo_", "tzdata.zi", "leapseconds", "zone.tab", "iso3166.tab"];
 const OFFSET_ZONES: [&str; 5] = ["+05:30", "-08:00", "+00:00", "Z", "-03:30"];
 const DURS: [&str; 14] = [
     "P1D", "PT1H", "P1M", "P1Y", "PT36H", "P1M15DT12H", "-P1D", "PT90M", "P2W", "PT0S", "P1Y2M3DT4H5M6S", "-P1M", "PT24H", "P40D",
@@ -583,7 +585,16 @@ fn program_strategy(pool: Vec<String>, n_orders: usize, total_lo: usize, total_h
     );
     (
         (palette(pool, 2, 6), 0usize..4, total_lo..=total_hi),
-        prop_oneof![1 => Just(vec![]).boxed(), 1 => prop::collection::vec(call.clone(), 1..6).boxed()],
+        prop_oneof![
+            3 => Just(vec![]).boxed(),
+            3 => prop::collection::vec(call.clone(), 1..6).boxed(),
+            // a wide warm-up: one accessor call on each of 66..=100 distinct zones of the database (a process that has
+            // met many zones: cache growth, eviction, per-zone state)
+            1 => (any::<u16>(), 66usize..=100, t_modern()).prop_map(|(start, n, t)| {
+                let names = crate::props::c03::iana_names();
+                (0..n).map(|k| Call::ZdtGet { t, zone: names[(start as usize + k * 7) % names.len()].clone(), acc: Acc::OffsetNs }).collect::<Vec<Call>>()
+            }).boxed(),
+        ],
         prop::collection::vec(prop::collection::vec(call, 1..=100), 16..=16),
         // 0: nothing; 1: all threads start with the same call on a cold zone; 2: same zone, own call
         (0u8..3, first.clone(), prop::collection::vec(first, 16..=16)),
@@ -814,6 +825,10 @@ fn fault_kinds(base_zone: &str) -> Vec<(&'static str, HStep)> {
         ("provider-method-not-implemented", h(Call::ZdtGet { t: t0, zone: base_zone.into(), acc: Acc::TransitionNext })),
         ("display-on-unknown-zone", h(Call::ZdtGet { t: t0, zone: "No/Such_Zone".into(), acc: Acc::Display })),
         ("wall-time-in-24h-gap", h(Call::ZdtFromStr { s: "2011-12-30T12:00:00[Pacific/Apia]".into(), dis: 0, off: 0, then: Acc::Hour })),
+        // an identifier that names an existing file of the zoneinfo directory which is not TZif data: the read succeeds,
+        // the parse fails
+        ("zone-file-that-is-not-tzif", h(Call::ZdtGet { t: t0, zone: "tzdata.zi".into(), acc: Acc::Hour })),
+        ("zone-file-that-is-not-tzif-2", h(Call::InstantStr { t: t0, zone: Some("leapseconds".into()) })),
         ("injected-panic", h(Call::InjectPanic)),
         ("injected-panic-second-thread", HStep { call: Call::InjectPanic, thr: true }),
     ]
@@ -871,7 +886,7 @@ pub fn run(ctx: &mut Ctx) {
         println!("INCONCLUSIVE property=C20 only {} of the {} pool zones exist under /usr/share/zoneinfo", pool.len(), ZONES.len());
         std::process::exit(2);
     }
-    ctx.rule = "program (a): palette of 2-6 real IANA zones out of 52; N in {2,4,8,16} threads x calls (a total of 100-200 calls is split over the threads, each thread list has 1-100 generated calls, so 2-thread programs can be shorter; ZonedDateTime from_str/accessors/add/subtract/until/since/with_plain_time/start_of_day/hours_in_day/to_plain_*/to_ixdtf_string/Display, Duration round/total/compare with RelativeTo::try_from_str, Instant::to_ixdtf_string, PlainDateTime::to_zoned_date_time), ~12% of zone references unknown / mis-cased / truncated / fixed-offset, malformed strings and out-of-range values mixed in; optional sequential warm-up; in 2/3 of the programs every thread starts with a call on the same cold zone. Each program runs in fresh child processes: single-threaded in generated global orders (random interleaving picks, rotations), then with one OS thread per list behind a barrier; every result must equal the call alone through *_with_provider against a fresh FsTzdbProvider (errors by kind, values exactly), and no result may be the lock error. non-trivial = >= 2 threads reference the same real zone that the warm-up did not touch. fault (b): histories = 1-3 generated succeeding calls with one failing call of each of 15 kinds inserted at every position (calls after it alternately on a second thread), plus every ordered pair of kinds as fault,call,fault,call; each in a fresh child process; non-trivial = a failing call is followed by a call that succeeds alone.".into();
+    ctx.rule = "program (a): palette of 2-6 real IANA zones out of 52; N in {2,4,8,16} threads x calls (a total of 100-200 calls is split over the threads, each thread list has 1-100 generated calls, so 2-thread programs can be shorter; ZonedDateTime from_str/accessors/add/subtract/until/since/with_plain_time/start_of_day/hours_in_day/to_plain_*/to_ixdtf_string/Display, Duration round/total/compare with RelativeTo::try_from_str, Instant::to_ixdtf_string, PlainDateTime::to_zoned_date_time), ~12% of zone references unknown / mis-cased / truncated / fixed-offset, malformed strings and out-of-range values mixed in; optional sequential warm-up; in 2/3 of the programs every thread starts with a call on the same cold zone. Each program runs in fresh child processes: single-threaded in generated global orders (random interleaving picks, rotations), then with one OS thread per list behind a barrier; every result must equal the call alone through *_with_provider against a fresh FsTzdbProvider (errors by kind, values exactly), and no result may be the lock error. non-trivial = >= 2 threads reference the same real zone that the warm-up did not touch. fault (b): histories = 1-3 generated succeeding calls with one failing call of each of 17 kinds inserted at every position (calls after it alternately on a second thread), plus every ordered pair of kinds as fault,call,fault,call; each in a fresh child process; non-trivial = a failing call is followed by a call that succeeds alone.".into();
     ctx.assumptions = vec![
         "oracle = the same call alone: core *_with_provider API against a fresh FsTzdbProvider, computed in the parent process which never uses TZ_PROVIDER".into(),
         "ZonedDateTime::microsecond()/nanosecond() are not used (mis-wired wrappers are C19's subject); Now::plain_datetime_iso / plain_date_iso / plain_time_iso are compared by verdict only (the reading depends on the clock)".into(),
